@@ -154,6 +154,10 @@ TRANSLATORS = {
     "translate_ws2d.py": ["Hdc.Gen.Ws2d"],
     "py2lean.py": [],          # per-kernel outputs: failures are reported as `FAILED <module>: reason`
     "py2lean_num.py": [],
+    "py2lean_fixed.py": [],    # ws2dgu, ws2dpgu
+    "py2lean_optvp.py": [],    # ws2doptvp, _ws2doptvp, ws2doptvplc
+    "py2lean_spi.py": [],      # gammafit, gammastd, gammastd_grp, gammastd_yxt
+    "py2lean_stats.py": [],    # mean_grp, do_mean, autocorr_1d_float, mk_*
 }
 
 
